@@ -84,3 +84,35 @@ def replay_blocking(inp):
     except Exception:
         pass
     return {"violates": bool(bad), "detail": bad[:4]}
+
+
+def sender_parked_when_the_link_ends(inp):
+    """a real channel with the peer's window used up, a sender parked in send(); then the channel is closed from the
+    transport side (what run()'s shutdown does through _unlink / the peer's CLOSE does through _handle_close): the sender
+    must come back at once, whatever its timeout"""
+    from .c19 import mk
+    bad = []
+    for timeout in (None, 20.0):
+        c, t = mk(10, 2 ** 15)
+        t._unlink_channel = lambda chanid: None
+        c.settimeout(timeout)
+        c.send(b"x" * 10)                       # uses the window up
+        res = timed(lambda: c.send(b"more"), 0.5)
+        if not res["alive"]:
+            bad.append({"timeout": timeout, "why": "send did not block on an exhausted window (harness)"})
+            continue
+        th_res = {}
+
+        def park():
+            try:
+                th_res["v"] = c.send(b"more")
+            except Exception as e:
+                th_res["e"] = e
+        th = threading.Thread(target=park, daemon=True)
+        th.start()
+        time.sleep(0.3)
+        c._unlink()                             # the connection ended
+        th.join(5)
+        if th.is_alive():
+            bad.append({"timeout": timeout, "why": "send() still blocked 5 s after the connection ended"})
+    return {"violates": bool(bad), "detail": bad}
